@@ -158,8 +158,24 @@ def call_lib(case, n_clusters="case", cutoff="case", tri="case", entry="case"):
     LOGGER.setLevel(logging.INFO)
     LOGGER.propagate = False
     try:
-        if entry == "class" and not tri:
-            est = KCenters(metric=metric, n_clusters=n_clusters, cluster_radius=cutoff)
+        if entry.startswith("class") and not tri:
+            if entry == "class":
+                est = KCenters(metric=metric, n_clusters=n_clusters, cluster_radius=cutoff)
+            else:
+                # the request is changed on a live estimator (scikit-learn protocol): built - and for *_refit also
+                # fitted once - with other stopping criteria, then given the criteria of the case
+                est = KCenters(metric=metric, n_clusters=1 if n_clusters is None else n_clusters + 2,
+                               cluster_radius=None if n_clusters is None and cutoff is not None else
+                               (1e-3 if cutoff is None else 4.0 * cutoff))
+                if entry.endswith("refit"):
+                    est.fit(X)
+                    cap.added = 0
+                    del cap.records[:]
+                if entry.startswith("class_set_params"):
+                    est.set_params(n_clusters=n_clusters, cluster_radius=cutoff)
+                else:
+                    est.n_clusters = n_clusters
+                    est.cluster_radius = cutoff
             if init_arg is None and case.get("style") == "omit":
                 est.fit(X)
             else:
@@ -457,7 +473,8 @@ def kc_case(draw, max_small=14, max_bulk=40, bulk_share=4, init_kinds=("none", "
         use_tri = False       # shortcut + off-data initial centers has its own clause (shortcut_offdata)
     return {"X": X.tolist(), "d": d, "dtype": dtype, "values": values, "metric": metric, "init": init,
             "n_clusters": n_clusters, "cutoff": cutoff, "tri": use_tri,
-            "entry": draw(st.sampled_from(["function", "function", "class"])),
+            "entry": draw(st.sampled_from(["function", "function", "class", "class_set_params", "class_setattr_refit",
+                                          "class_set_params_refit"])),
             "style": draw(st.sampled_from(["omit", "none"]))}
 
 
